@@ -540,20 +540,26 @@ fn fold_constraint_set(
                 extensible: _,
             }),
         ) => return Ok(None),
+        // a contained subtype is not looked into: it can be left out of an intersection and
+        // on the right of an EXCEPT, everywhere else the result is not PER-visible
         (
             SubtypeElements::ContainedSubtype {
                 subtype: _,
                 extensible: _,
             },
             Some(c),
-        )
-        | (
+        ) => {
+            return Ok(matches!(set.operator, SetOperator::Intersection).then(|| c.clone()));
+        }
+        (
             c,
             Some(SubtypeElements::ContainedSubtype {
                 subtype: _,
                 extensible: _,
             }),
-        ) => return Ok(Some(c.clone())),
+        ) => {
+            return Ok((!matches!(set.operator, SetOperator::Union)).then(|| c.clone()));
+        }
         (SubtypeElements::PermittedAlphabet(elem_or_set), None)
         | (SubtypeElements::SizeConstraint(elem_or_set), None) => {
             return match &**elem_or_set {
